@@ -458,10 +458,17 @@ def op_evolve(w, s):
     else:
         with np.errstate(all="ignore"):
             U = scipy.linalg.expm(-1j * dt * H)
-        if imag:
-            U = U.real if not np.iscomplexobj(H) or float(np.abs(U.imag).max()) < 1e-14 * float(np.abs(U).max()) else U
-        full = U @ psi0
-        ut = U @ t_before
+        if not np.all(np.isfinite(U)):
+            w.stats.probes["reference_overflow_skipped"] += 1
+            return "skipped"
+        with np.errstate(all="ignore"):
+            if imag:
+                U = U.real if not np.iscomplexobj(H) or float(np.abs(U.imag).max()) < 1e-14 * float(np.abs(U).max()) else U
+            full = U @ psi0
+            ut = U @ t_before
+        if not (np.all(np.isfinite(full)) and np.all(np.isfinite(ut))):
+            w.stats.probes["reference_overflow_skipped"] += 1
+            return "skipped"
     if s.get("normalize", True):
         nrm = float(np.linalg.norm(ut.ravel()))
         cexp = (coeff / abs(coeff)) if imag else coeff
@@ -757,7 +764,7 @@ def _gen_evolve(w, rnd, imag):
             a = rnd.choice(ex)
             e = w.h[a]
     hn = _sector_norm(eh.shadow, e.obj.model, np.asarray(e.obj.qntot).reshape(-1), e.kind)
-    if hn < 1e-6:
+    if hn < 1e-3:
         return None
     x = 10 ** rnd.uniform(math.log10(X_LO), math.log10(X_HI)) if rnd.random() < 0.85 else rnd.uniform(0.5, 1.5)
     tau = round(x / hn, 6)
